@@ -419,7 +419,7 @@ def renorm(t: Any) -> Any:
 
 
 def strip_casts(t: Any, only_full_width: bool = True) -> Any:
-    """the term without its dtype casts (astype to a full-width numeric type keeps every value; with only_full_width=False every cast is removed - for questions such as
+    """the term without its value-preserving dtype casts (astype to float64, or to int64 of an integer-valued term, keeps every value; with only_full_width=False every cast is removed - for questions such as
     null-ness that no cast changes); re-normalised"""
     FULL = {"int64", "float64", "int", "float", "np.int64", "np.float64", "numpy.int64", "numpy.float64", "builtins.int", "builtins.float", "Int64"}
 
@@ -427,10 +427,26 @@ def strip_casts(t: Any, only_full_width: bool = True) -> Any:
         name = ty[1] if isinstance(ty, tuple) and len(ty) == 2 and ty[0] in ("const", "ext") else None
         return isinstance(name, str) and name in FULL
 
+    def integral(x):
+        """the term is integer-valued whatever its dtype (a cast to int64 then truncates nothing)"""
+        if isinstance(x, tuple) and x:
+            if x[0] in ("ceil", "floor", "round") and len(x) == 2:
+                return True
+            if x[0] == "astype" and len(x) == 3:
+                return integral(x[2]) or (isinstance(x[1], tuple) and len(x[1]) == 2 and "int" in str(x[1][1]).lower())
+            if x[0] == "lin":
+                return all(integral(a_) and isinstance(c_, int) for a_, c_ in x[1]) and isinstance(x[2], int)
+            if x[0] == "const":
+                return isinstance(x[1], int)
+        return False
+
+    def is_int_type(ty):
+        return "int" in str(ty[1]).lower() if isinstance(ty, tuple) and len(ty) == 2 else False
+
     def go(x):
         if isinstance(x, tuple):
-            if len(x) == 3 and x[0] == "astype" and (not only_full_width or full(x[1])):
-                return go(x[2])
+            if len(x) == 3 and x[0] == "astype" and (not only_full_width or (full(x[1]) and (not is_int_type(x[1]) or integral(x[2])))):
+                return go(x[2])          # (a cast of a possibly fractional term to an integer type TRUNCATES: it stays)
             return tuple(go(y) for y in x)
         return x
     return renorm(go(t))
